@@ -331,6 +331,66 @@ func c17Mutations(c *mc.Ctx) {
 }
 
 // all very short byte strings for every entry point
+// c17Headers: crafted packfile object headers. The header is a variable-length integer (type in the
+// first byte, 4 + 7k length bits, continuation flag in the top bit): canonical encodings of boundary
+// lengths up to 2^64-1 and every string "first byte, k continuation bytes, final byte" for k = 0..11
+// - lengths that are negative as int64, over-long encodings, headers that never end.
+func c17Headers(c *mc.Ctx) {
+	needRewrite("export:packfile-header")
+	targets := []*hostileTarget{streamTarget(decPackfile), receiveTarget(false)}
+	t := targets[c.Choose(len(targets))]
+	part := c.Choose(2)
+	c.Shard()
+	// a valid packfile prologue (magic + version), taken from a packfile without objects
+	pb := bytes.NewBuffer(nil)
+	pw, err := packfile.NewPackfileWriter(pb)
+	if err != nil {
+		panic(err)
+	}
+	_ = pw
+	prologue := append([]byte{}, pb.Bytes()...)
+	var n int64
+	ok := true
+	try := func(hdr []byte, how string) {
+		for _, body := range [][]byte{nil, {0x00}, {0x01, 0x02, 0x03}} {
+			if !ok {
+				return
+			}
+			n++
+			b := append(append(append([]byte{}, prologue...), hdr...), body...)
+			ok = runHostile(c, t, "packfile prologue", how, b)
+		}
+	}
+	if part == 0 {
+		lens := []uint64{1, 15, 16, 127, 128, 1<<11 - 1, 1 << 11, 1<<31 - 1, 1 << 31, 1<<32 - 1, 1 << 32, 1 << 53, 1 << 62, 1<<63 - 1, 1 << 63, 1<<63 + 1, 1<<64 - 1}
+		for typ := 0; typ <= 7; typ++ {
+			for _, u := range lens {
+				try(packfile.VerifEncodeHeader(typ, u), fmt.Sprintf("canonical header type=%d length=%d", typ, u))
+			}
+		}
+	} else {
+		for _, first := range []byte{0x80, 0x90, 0xa0, 0xb0, 0xf0, 0xff, 0x9f} {
+			for k := 0; k <= 11; k++ {
+				for _, cont := range []byte{0x80, 0xff} {
+					for _, final := range []int{0x00, 0x01, 0x08, 0x7f, -1} {
+						hdr := []byte{first}
+						for i := 0; i < k; i++ {
+							hdr = append(hdr, cont)
+						}
+						if final >= 0 {
+							hdr = append(hdr, byte(final))
+						}
+						try(hdr, fmt.Sprintf("raw header % x", hdr))
+					}
+				}
+			}
+		}
+	}
+	c.Count("hostile_inputs", n)
+	c.Outcome(fmt.Sprintf("headers%d-ok=%v", part, ok))
+	c.Nontrivial(fmt.Sprintf("%s/headers%d", t.name, part))
+}
+
 func c17Short(c *mc.Ctx) {
 	targets := []*hostileTarget{
 		streamTarget(decCommit), streamTarget(decTable), streamTarget(decBlock), streamTarget(decBlockIndex), streamTarget(decProfile),
@@ -561,11 +621,12 @@ func init() {
 		Rule: "complete edit-distance-1 neighbourhood of every valid encoding in the seed corpus (commits, tables, blocks, block indices, profiles, list sequences, pkt-lines, packfiles, s2-compressed block / block index, a real sender packfile): truncation at every offset; at every offset every replacement from {00,01,7f,80,ff,b+-1,b xor 2^i}; " +
 			"2- and 4-byte big-endian overwrites with {0,1,255,256,ffff,7fff(ffff),ffffffff,len,len+-1} at every offset; one-byte insertion of {00,ff,space,newline} and deletion at every offset; plus ALL byte strings of length <= 2 and all strings of length 3..4 over {00,01,80,ff,P,space,newline} (also ff-padded) for every entry point " +
 			"(ReadCommitFrom, ReadTableFrom, ReadBlockFrom, ValidateBlockBytes, ReadBlockIndex, TableProfile.ReadFrom, StrListDecoder.Read/ReadBytes, UintListDecoder.Read, ReadPktLine, PackfileReader, Get* on a store holding the bytes, ObjectReceiver.Receive into an empty and a pre-populated store). " +
-			"plus every sequence of 1..3 (thorough 4) objects from an alphabet of 13 well-formed but mutually inconsistent packfile objects (honest / ragged / empty / wide blocks; tables over them recording another block's index sum, a wrong row count, a key index beyond the columns; commits incl. one with a missing parent) fed to one receiver, in one packfile or one per object. " +
+			"plus crafted packfile object headers (canonical encodings of boundary lengths up to 2^64-1 for every type code; every raw header 'first byte, 0..11 continuation bytes 80/ff, final byte' - negative as int64, over-long, never ending) fed to the packfile reader and the receiver; plus every sequence of 1..3 (thorough 4) objects from an alphabet of 13 well-formed but mutually inconsistent packfile objects (honest / ragged / empty / wide blocks; tables over them recording another block's index sum, a wrong row count, a key index beyond the columns; commits incl. one with a missing parent) fed to one receiver, in one packfile or one per object. " +
 			"Oracle: returns without panic; reads <= 4*len+64; heap bytes allocated during the call <= 64*len + 1 MiB; after Receive every table key present is fully usable and every commit has its parents. Workers run under ulimit -v so a runaway allocation is a captured crash. " +
 			"evaluations = (seed, mutation family) cases; counter hostile_inputs = decodes; non-trivial/distinct = (seed, family) or (entry point, length class)",
 		Assumptions: []string{"byte strings further than one edit from a valid encoding are only covered up to length 4", "allocation is measured as the runtime's cumulative heap-allocation counter around the call in a single-goroutine worker"},
 		Harnesses: []*mc.Harness{
+			{Name: "packfile-headers", Body: c17Headers, MemKB: 6 << 20, Budget: map[string]time.Duration{"quick": 40 * time.Second, "thorough": 3 * time.Minute}},
 			{Name: "mutations", Body: c17Mutations, MemKB: 8 << 20, Procs: 1, Budget: map[string]time.Duration{"quick": 60 * time.Second, "thorough": 10 * time.Minute}},
 			{Name: "hostile-object-sequences", Body: c17Objects, MemKB: 8 << 20, Procs: 1, Budget: map[string]time.Duration{"quick": 60 * time.Second, "thorough": 10 * time.Minute}},
 			{Name: "short-strings", Body: c17Short, MemKB: 8 << 20, Procs: 1, Budget: map[string]time.Duration{"quick": 60 * time.Second, "thorough": 10 * time.Minute}},
